@@ -1,7 +1,7 @@
 SPECIFICATION Spec
 CONSTANTS
   Values = {0, 1, 2, 3, 4}
-  NegMag = {1, 3}
+  NegMag = {2}
   Gaps = {0, 2}
   MaxLen = 5
 INVARIANTS TypeOK RunIsRef ReadIsCurrent PeakToTrough Recovery OnePerPeak NoneIffMonotone MaxIsLargest ClassicMDD
